@@ -3,7 +3,7 @@ import ast
 
 from sa.core import (AnalysisError, FUNC, assignments, call_name, class_attr, const, dotted, enclosing, enclosing_func,
                      enclosing_stmt, is_attr, is_name, is_self_attr, literal, norm, params, parent, walk_local, names_in)
-from sa.guards import facts
+from sa.guards import facts, canon_facts
 from sa.finite import Interp, C, K, S, TOP
 
 PROP = "C15"
@@ -451,8 +451,8 @@ def _factory(cx, factory):
     for st in walk_local(factory):
         if isinstance(st, ast.Assign) and isinstance(st.targets[0], ast.Tuple) and is_name(st.value, params(factory)[1]):
             names = [e.id for e in st.targets[0].elts]
-            fs = facts(st)
-            n = next((e.comparators[0].value for e, pol in fs if isinstance(e, ast.Compare) and pol and isinstance(e.ops[0], ast.Eq) and const(e.comparators[0], int)), None)
+            # the length established on the way to the unpacking, however the comparison is spelled (== / not != / mirrored)
+            n = next((int(x) for k, a, b, pol in sorted(canon_facts(st)) if k == "==" and pol for x in (a, b) if x.isdigit()), None)
             if len(names) == 3:
                 n3 = True
                 ok = n == 3
